@@ -17,6 +17,43 @@ type File struct {
 	Declared int64       // reported size; -1 means len(Data)
 	LstatErr error
 	OpenErr  error
+	// Shape is how the reader returned by Open delivers the content (all legal for an io.Reader):
+	// 0 as much as asked for; 1 one byte per Read; 2 half of what is asked for; 3 the last bytes together
+	// with io.EOF; 4 a Read of zero bytes with a nil error before every piece; 5 three bytes per Read.
+	Shape int
+}
+
+// Shapes is the number of reader shapes.
+const Shapes = 6
+
+type shaped struct {
+	r     io.Reader
+	shape int
+	flip  bool
+}
+
+func (s *shaped) Read(p []byte) (int, error) {
+	if len(p) == 0 {
+		return 0, nil
+	}
+	switch s.shape {
+	case 1:
+		return s.r.Read(p[:1])
+	case 2:
+		return s.r.Read(p[:(len(p)+1)/2])
+	case 4:
+		s.flip = !s.flip
+		if s.flip {
+			return 0, nil
+		}
+		return s.r.Read(p[:(len(p)+2)/3])
+	case 5:
+		if len(p) > 3 {
+			p = p[:3]
+		}
+		return s.r.Read(p)
+	}
+	return s.r.Read(p)
 }
 
 func Reg(p, data string) File { return File{P: p, Data: []byte(data), Declared: -1} }
@@ -39,11 +76,34 @@ func (f File) Open() (io.ReadCloser, error) {
 			break
 		}
 	}
-	return &handle{Reader: bytes.NewReader(f.Data)}, nil
+	var rd io.Reader = bytes.NewReader(f.Data)
+	switch f.Shape {
+	case 0:
+	case 3:
+		rd = &dataErr{data: f.Data}
+	default:
+		rd = &shaped{r: rd, shape: f.Shape}
+	}
+	return &handle{Reader: rd}, nil
 }
 
 // Open counts the handles that are open right now (over all goroutines), Peak the largest value seen.
 var Open, Peak atomic.Int64
+
+// dataErr returns the final bytes together with io.EOF.
+type dataErr struct {
+	data []byte
+	off  int
+}
+
+func (d *dataErr) Read(p []byte) (int, error) {
+	n := copy(p, d.data[d.off:])
+	d.off += n
+	if d.off == len(d.data) {
+		return n, io.EOF
+	}
+	return n, nil
+}
 
 type handle struct {
 	io.Reader
